@@ -181,3 +181,31 @@ impl Dictionary {
             .collect()
     }
 }
+
+/// Builds the XOR double array of the raw connector from `(key1, key2, cost)` entries and
+/// looks up every query pair; `None` when the pair is absent.  Costs must be non-zero for
+/// the answer to be unambiguous (the scorer adds 0 for an absent pair).
+pub fn scorer_probe(entries: &[(u32, u32, i32)], queries: &[(u32, u32)]) -> Vec<Option<i32>> {
+    use crate::dictionary::connector::verif_scorer::{invalid_id, ScorerBuilder, U31x8};
+    use crate::num::U31;
+    let mut b = ScorerBuilder::new();
+    for &(k1, k2, c) in entries {
+        b.insert(U31::new(k1).unwrap(), U31::new(k2).unwrap(), c);
+    }
+    let scorer = b.build();
+    queries
+        .iter()
+        .map(|&(k1, k2)| {
+            let mut a = [invalid_id(); 8];
+            let mut c = [invalid_id(); 8];
+            a[0] = U31::new(k1).unwrap();
+            c[0] = U31::new(k2).unwrap();
+            let v = scorer.accumulate_cost(&U31x8::to_simd_vec(&a), &U31x8::to_simd_vec(&c));
+            if v == 0 {
+                None
+            } else {
+                Some(v)
+            }
+        })
+        .collect()
+}
